@@ -652,6 +652,13 @@ func runFF(o *Opts) *Summary {
 			offers += a + r + fa
 			continue
 		}
+		if o.Arg == "twojoins" {
+			a := runFFTwoJoins(w, o)
+			adoptedValid += a
+			offers += a
+			s.Steps++
+			continue
+		}
 		if o.Arg == "window" {
 			a := runFFWindow(w, o)
 			adoptedValid += a
@@ -1032,6 +1039,100 @@ func runFFWindow(w *World, o *Opts) (adopted int) {
 		}
 	}
 	gossip(o.Steps/2, append(append([]*NNode{}, active...), j), nil)
+	for _, nd := range vn.nodes {
+		nd.node.VTransition(_state.Shutdown)
+	}
+	return
+}
+
+// runFFTwoJoins: the anchor block itself carries a membership receipt, and it is
+// not the first change of the history.  Three (or four) validators; X joins and
+// stays silent; then Z joins with fast-sync enabled while nothing else is
+// submitted, so that the block with Z's receipt stays the last block and becomes
+// the anchor; Z - a fresh node that only knows the genesis peers - resets from it
+// and everybody keeps gossiping past both activation rounds.
+func runFFTwoJoins(w *World, o *Opts) (adopted int) {
+	n := 3 + w.traceNo%2
+	vn := NewVNet(w)
+	defer vn.Close()
+	gen := []int{}
+	for i := 1; i <= n; i++ {
+		gen = append(gen, i)
+	}
+	for _, k := range gen {
+		nd := vn.NewNode(w.parts[k-1], gen, gen, NodeOpts{Store: "inmem", Cache: o.Cache, SyncLimit: 40})
+		nd.node.Init()
+	}
+	vn.EmitInit(map[string]interface{}{"sched": "ff-twojoins", "nc": n + 4})
+	all := append([]*NNode{}, vn.nodes...)
+	gossip := func(steps int, who []*NNode, ops *[]*pendingOp, txp float64) {
+		for k := 0; k < steps; k++ {
+			if w.rng.Float64() < txp {
+				tgt := who[w.rng.Intn(len(who))]
+				if tgt.State() == "Babbling" {
+					id, payload := w.RandTx()
+					vn.Submit(tgt, id, payload)
+				}
+			}
+			a := who[w.rng.Intn(len(who))]
+			b := who[w.rng.Intn(len(who))]
+			if a != b && a.State() == "Babbling" && b.State() == "Babbling" {
+				vn.Gossip(a, b, true)
+			}
+			if ops != nil {
+				*ops = vn.poll(*ops)
+			}
+		}
+	}
+	gossip(40+w.rng.Intn(40), all, nil, o.TxP)
+	w.itxSeen = map[string]bool{}
+	// X joins (no fast-sync) and then stays silent
+	x := vn.NewNode(w.parts[n], gen, []int{1}, NodeOpts{Store: "inmem", Cache: o.Cache, SyncLimit: 40})
+	x.node.Init()
+	vn.emitNodeUp(x, "join")
+	ops := []*pendingOp{vn.startJoin(x, all[0], true)}
+	for k := 0; k < 400 && len(ops) > 0; k++ {
+		gossip(1, all, &ops, o.TxP)
+	}
+	if len(ops) > 0 {
+		return
+	}
+	// a few rounds later (inside or after X's activation window) Z joins with fast-sync
+	gossip(w.rng.Intn(30), all, nil, o.TxP)
+	z := vn.NewNode(w.parts[n+1], gen, []int{2}, NodeOpts{Store: "inmem", Cache: o.Cache, SyncLimit: 40, FastSync: true})
+	z.node.Init()
+	vn.emitNodeUp(z, "join")
+	ops = []*pendingOp{vn.startJoin(z, all[1], true)}
+	for k := 0; k < 400 && len(ops) > 0; k++ {
+		gossip(1, all, &ops, 0) // nothing else is submitted: the receipt's block stays the last one
+	}
+	if len(ops) > 0 {
+		return
+	}
+	// until the last block (the one with Z's receipt) is the anchor of Z's peer
+	for k := 0; k < 80; k++ {
+		hgr := all[1].core.Hg()
+		if hgr.AnchorBlock != nil && *hgr.AnchorBlock == hgr.Store.LastBlockIndex() {
+			break
+		}
+		gossip(1, all, nil, 0)
+	}
+	trusted := map[string]bool{}
+	for _, p := range w.parts[:n+2] {
+		trusted[canonKey(p.PubHex)] = true
+	}
+	if z.State() == "CatchingUp" {
+		vn.down[x.num] = true
+		if vn.tryFF(z, "none", nil, trusted) {
+			adopted++
+		}
+		vn.down = map[int]bool{}
+		if z.State() != "Babbling" {
+			z.node.VTransition(_state.Babbling)
+		}
+	}
+	// everybody (X stays silent) gossips past both activation rounds
+	gossip(o.Steps/2, append(append([]*NNode{}, all...), z), nil, o.TxP)
 	for _, nd := range vn.nodes {
 		nd.node.VTransition(_state.Shutdown)
 	}
